@@ -2,7 +2,7 @@
 import e2
 
 TIE = ["Nsq.Tie.Chan"]
-PROPS = ["Nsq.Props.C01", "Nsq.Props.C01Live"]
+PROPS = ["Nsq.Props.C01", "Nsq.Props.C01Live", "Nsq.Props.C01Topic", "Nsq.Props.C01PumpLedger"]
 
 
 def run(ctx):
@@ -19,7 +19,11 @@ def run(ctx):
         "of the consumer pumps towards each queued message: the queue is a bag, Go's select decides which message a pump receives) "
         "and ReadyInfOften (some consumer's guard holds infinitely often); that the Go scheduler, timers and queueScanLoop satisfy "
         "them is NOT discharged (tick-count side: Nsq.Props.C04Live); the drain-and-compare oracle measures it",
-        "topic level: only enabledness of the fan-out step is proved (pump_enabled)",
+        "topic level (round 7, Nsq.Props.C01Topic, every infinite schedule NExec of API-level ops of the nsqd-level model from a state "
+        "satisfying the invariant): eventually_fanned_out / acked_eventually_delivered — a message in a topic queue is fanned out to EVERY "
+        "channel the topic has at that moment and is then delivered on each of them — UNDER the named hypotheses FairTopicPump (strong "
+        "fairness of Topic.messagePump towards each queued message; the topic queue is a bag), PumpEnabledInfOften (topic unpaused with "
+        ">= 1 channel infinitely often) and the four channel-level hypotheses per channel; not discharged for the Go scheduler",
         "an #ephemeral channel may drop on overflow and a sampling consumer may drop: the two deliberate drops of the statement",
         "Channel.Empty / channel deletion / shutdown windows belong to C08 / C05",
     ]
